@@ -158,8 +158,11 @@ def extendDuration (s : CS α) (new : Nat) : Option (CS α) :=
 
 /-- `ChannelSamples.modulate(channel_obj, max_duration)` without EOM blocks:
 `amp = modulate(amp)`, `det = modulate(det, keep_ends=True)`, phase padded to the new length with
-its last value (zeros if empty), everything cut to `[0:max_duration]`. -/
+its last value (zeros if empty), everything cut to `[0:max_duration]`; samples of duration zero
+are returned unchanged. -/
 def csModulate (filt : List α → List α) (c : ModCfg) (s : CS α) (maxDur : Option Nat) : CS α :=
+  if s.amp.length = 0 then s     -- `if self.duration == 0: return replace(self)` (/repo 0b0bffd1)
+  else
   let amp := channelModulate filt c s.amp false
   let det := channelModulate filt c s.det true
   let ph := padKeepRight s.phase (amp.length - s.phase.length)
